@@ -32,7 +32,7 @@ CORPORA = {
     "hgetters": dict(model="MC_Header", cfg="MC_HGetters", quick=dict(MaxTags=3), thorough=dict(MaxTags=4), profiles=DEV_REL, place="end"),
     "hdst": dict(model="MC_Header", cfg="MC_HDst", quick={}, thorough={}, profiles=DEV_REL, place="both"),
     "find": dict(model="MC_Header", cfg="MC_Find", quick={}, thorough=dict(
-                     FindLens="{0, 1, 3, 4, 7, 8, 11, 12, 15, 16, 20, 24, 32, 64, 8176, 8180, 8184, 8188, 8191, 8192, 8193, 8196, 8200, 8204, 8208, 16384}",
+                     FindLens="{0, 1, 3, 4, 7, 8, 11, 12, 15, 16, 20, 24, 32, 64, 8176, 8180, 8184, 8188, 8191, 8192, 8193, 8196, 8200, 8204, 8208, 16384, 32768, 32776, 65536, 131072}",
                      FindPos="{0, 1, 2, 4, 7, 8, 12, 16, 24, 8168, 8176, 8180, 8184, 8185, 8188, 8189, 8190, 8191, 8192, 8196, 8200, 8208}"),
                  profiles=DEV_REL, place="both"),
     "cks": dict(model="MC_Header", cfg="MC_Cks", quick={}, thorough={}, profiles=DEV_REL, place="end"),
